@@ -24,6 +24,10 @@ func ro(o ...Op) Tran  { return Tran{ReadOnly: true, Ops: o} }
 var t3 = map[string][]Row{"t": {{"1", "1", "1"}, {"2", "2", "2"}, {"4", "4", "4"}}}
 var pc = map[string][]Row{"p": {{"1", "x"}, {"2", "x"}}, "c": {{"1", "1"}}}
 
+// h 1 is referenced by l1 (cascade) and by l2 (cascade, through l2's key), l2 1 by g (block)
+var hl = map[string][]Row{"t": {{"1", "1", "1"}}, "h": {{"1", "x"}, {"2", "x"}}, "l1": {{"a", "1"}, {"b", "2"}},
+	"l2": {{"1", "e"}}, "g": {{"g1", "1"}}}
+
 // AllScenarios returns every scenario; checks pick theirs by group.
 func AllScenarios() []*Scenario {
 	return []*Scenario{
@@ -110,6 +114,14 @@ func AllScenarios() []*Scenario {
 		{Name: "timeout-vs-commit", Group: "atom", Init: t3, Ticks: 1, Clients: [][]Tran{
 			{upd(I("t", "5", "5", "5"), I("t", "6", "6", "6"))},
 			{upd(I("t", "7", "7", "7"))}}},
+		// the key change of h 1 cascades into l1 and l2; changing l2's key is blocked
+		// by g: the whole update is refused; the client catches that and goes on
+		{Name: "cascade-refused-then-continue", Group: "atom", Init: hl, Clients: [][]Tran{
+			{upd(U("h", "1", "3", "x"), I("t", "5", "5", "5"))},
+			{upd(I("t", "7", "7", "7"))}}},
+		{Name: "cascade-through-two-tables", Group: "atom", Init: hl, Clients: [][]Tran{
+			{upd(U("h", "2", "4", "y"), L("l1", 0, "b"))},
+			{upd(D("g", "g1"), U("h", "1", "3", "x"))}}},
 		{Name: "commit-then-next-tran-sees-it", Group: "atom", Init: t3, Clients: [][]Tran{
 			{upd(I("t", "5", "5", "5")), upd(L("t", 0, "5"), U("t", "5", "5", "6", "5"))},
 			{upd(I("t", "7", "7", "7"))}}},
